@@ -62,7 +62,7 @@ def run_c15(prop, tier, seed, scratch):
     racelog = scratch.path("race")
     env = dict(os.environ, GORACE="halt_on_error=0 log_path=%s" % racelog)
     args = [vh, "async", "-in", ",".join(sched_files), "-prop", prop, "-seed", str(seed), "-grace", "2" if q else "20", "-trace", trace,
-            "-free", "156" if q else "1560", "-reps", "2" if q else "6", "-out", out, "-replaydir", scratch.sub("replays")]
+            "-free", "180" if q else "1800", "-reps", "2" if q else "6", "-out", out, "-replaydir", scratch.sub("replays")]
     if not q:
         args.append("-triples")
     t0 = time.time()
